@@ -81,7 +81,7 @@ func (g *DefaultValidator) InjectClient(c client.Client) {
 func (g *DefaultValidator) ValidateExperiment(instance, oldInst *experimentsv1beta1.Experiment) field.ErrorList {
 	var allErrs field.ErrorList
 
-	namingConvention, _ := regexp.Compile("^[a-z]([-a-z0-9]*[a-z0-9])?")
+	namingConvention, _ := regexp.Compile("^[a-z]([-a-z0-9]*[a-z0-9])?$")
 	if !namingConvention.MatchString(instance.Name) || len(instance.Name) > 40 {
 		msg := "name must consist of lower case alphanumeric characters or '-'," +
 			" start with an alphabetic character, and end with an alphanumeric character" +
